@@ -23,7 +23,7 @@ import (
 	"verif.local/harness/sto"
 )
 
-const rule = "many short concurrent histories: per backend (11 backends incl. files over a yielding VFS and diskpacked over yielding on-disk indexes, 6 compositions) 2-16 client goroutines x 30-60 calls (receive/fetch/subfetch/stat/batched stat/enumerate/remove/multi-remove) over 6-10 shared blobs plus blobs only their owner writes (write, then read by the same client), with seeded yields/sleeps at the harness-owned lower layers; replica with early acknowledgement runs a directed own-blob program with one slow replica; files in the sync-queue layout (root queue-…: enumerations remove empty shard directories in the background while receives re-create them, with RemoveAll- and rmdir-style VFS) gets extra enumerations and pauses around the directory creation; proxycache over harness-owned cache and origin stores has its own blobs pre-loaded below the cache, the owner's fetch (cache miss) is directly followed by its remove and reads while the cache fill is held at the cache store's boundary; plus index+corpus histories (one writer per permanode, delete claims racing their targets, files/directories/second-signer blobs delivered out of order with the dependency lookup missing right before the dependency is indexed, readers under RLock and through the search handler's entry points; then doomed permanodes whose delete claim arrives first, the background re-indexing of the claim held while the sorted permanode listings and sorted queries are read, and read again once Corpus.IsDeleted says true); every key's call/return history is checked with porcupine against a register, fetched bytes against the content, the quiescent index rows and sorted permanode listings against a sequential reference delivery, and every race-detector report with a perkeep frame is a violation; distinct = (backend, per-key interleaving shape) of a key on which a write overlapped another operation"
+const rule = "many short concurrent histories: per backend (11 backends incl. files over a yielding VFS and diskpacked over yielding on-disk indexes, 6 compositions, a read-only union) 2-16 client goroutines x 30-60 calls (receive/fetch/subfetch/stat/batched stat/enumerate/remove/multi-remove) over 6-10 shared blobs plus blobs only their owner writes (write, then read by the same client), with seeded yields/sleeps at the harness-owned lower layers; replica with early acknowledgement runs a directed own-blob program with one slow replica; files in the sync-queue layout (root queue-…: enumerations remove empty shard directories in the background while receives re-create them, with RemoveAll- and rmdir-style VFS) gets extra enumerations and pauses around the directory creation; proxycache over harness-owned cache and origin stores has its own blobs pre-loaded below the cache, the owner's fetch (cache miss) is directly followed by its remove and reads while the cache fill is held at the cache store's boundary; plus index+corpus histories (one writer per permanode, delete claims racing their targets, files/directories/second-signer blobs delivered out of order with the dependency lookup missing right before the dependency is indexed, readers under RLock and through the search handler's entry points; then doomed permanodes whose delete claim arrives first, the background re-indexing of the claim held while the sorted permanode listings and sorted queries are read, and read again once Corpus.IsDeleted says true; finally, on the quiet index, permanodes with camliContent claims of never-seen values are delivered in two waves and after each 2-8 readers that share no harness synchronisation ask for their times at once - Corpus.PermanodeAnyTime/PermanodeTime under RLock, time-constrained and creation-sorted queries, Describe, GetRecentPermanodes, GetClaims - so that any write by a reader is a reported race, and every answer must be what the delivered claims define); a read-only union of three pre-loaded stores is read concurrently; every StatBlobs callback is an unsynchronised accumulation (BlobStatter promises serial calls) with an in-flight counter: a callback entered while another one of the same call runs is a violation, and a race report inside the callback is charged to the store that called it; every key's call/return history is checked with porcupine against a register, fetched bytes against the content, the quiescent index rows and sorted permanode listings against a sequential reference delivery, and every race-detector report with a perkeep frame is a violation; distinct = (backend, per-key interleaving shape) of a key on which a write overlapped another operation"
 
 func sp(kind string, p map[string]any, kids ...*sto.Spec) *sto.Spec {
 	return &sto.Spec{Kind: kind, P: p, Kids: kids}
@@ -183,6 +183,8 @@ func run(r *ev.Run) {
 	r.Assume("the sorted permanode listings (Corpus.EnumeratePermanodesCreated / LastModified, sorted permanode queries) list a permanode iff it is indexed, has a claim and Corpus.IsDeleted says false: per doomed permanode one register whose reads are the listings and IsDeleted = true (read as 'not listed'); the merge of an out-of-order delete claim is an open-ended write, checked explicitly after quiescence")
 	r.Assume("sync-queue layout: the background removal of an empty shard directory is not a client call; no receive may fail and no acknowledged blob may disappear because of it (both VFS flavours of RemoveDir: OSFS and rmdir(2) as the sftp VFS)")
 	r.Assume("proxycache cachemiss mode: the write that fills the cache for an owner's fetch is held at the cache store's ReceiveBlob until the owner's following remove returned or 4 ms passed (schedule perturbation only)")
+	r.Assume("BlobStatter.StatBlobs calls fn in serial (pkg/blobserver/interface.go): the clients' callback accumulates into plain unsynchronised memory like the callers in the tree do; two callbacks of one call in flight at once, or a race report whose accesses are both in that callback below a perkeep frame, are the store's fault")
+	r.Assume("read-only phase of the index histories: nothing is delivered while the readers run and the readers share no harness lock, atomic or channel, so every race report there is between two queries under the index read lock; the answers must equal what the delivered claims define (content permanode time = date of its newest camliContent set claim)")
 	r.Assume("race oracle = Go race detector reports (GORACE log_path) of the child processes; a report is judged when a perkeep frame is on either access stack; signature = innermost perkeep function of each access stack")
 	if !raceEnabled {
 		r.Inconclusive("this binary was not built with -race: the race oracle is not armed (run through ./check)")
@@ -399,7 +401,8 @@ func run(r *ev.Run) {
 			"stat-several-callbacks-in-one-call", "stat-callbacks-from-several-goroutines")
 		r.Require("history_kinds", "store", "store-composition", "index")
 		r.Require("index_ops", "GetBlobMeta", "GetFileInfo", "PermanodeAttrValue", "AppendClaims", "Query", "Query-mod", "Query-created", "EnumeratePermanodesCreated", "EnumeratePermanodesLastModified", "GetRecentPermanodes", "Describe", "GetClaims", "EdgesTo", "GetPermanodesWithAttr",
-			"content-PermanodeAnyTime", "content-PermanodeTime", "content-Query-time", "content-Query-created-asc", "content-Query-created")
+			"content-PermanodeAnyTime", "content-PermanodeTime", "content-Query-time", "content-Query-created-asc", "content-Query-created",
+			"content-Describe", "content-GetRecentPermanodes", "content-GetClaims", "content-PermanodeAttrValue")
 	}
 }
 
